@@ -54,10 +54,13 @@ class Program:
         self.closures = {}     # span text -> MirFn
         self.free = {}         # last segment -> [MirFn]
         self.hashes = {c: source_hash(c) for c in crates}
+        self.simple_consts = {}      # `const NAME: ty = const 20_usize;` items (printed without a body)
         for c, p in self.paths.items():
             fns = mirparse.parse_mir_file(p, c)
             self.crates[c] = fns
             for f in fns.values(): self._index(f)
+            for m in re.finditer(r'^const ([\w:]+): [iu](?:8|16|32|64|128|size) = const (-?\d+)_[iu]\w+;', open(p).read(), re.M):
+                self.simple_consts[m.group(1)] = int(m.group(2))
         self._resolve_cache = {}
 
     # ------------------------------------------------------------------ indexing
